@@ -24,6 +24,9 @@ THEOREMS = [
     "C06_client_policy_partial",
     "C06_denied_not_delivered", "C06_delivered_only_if_permitted", "C06_denied_broadcast_not_delivered", "C06_denied_call_gets_access_denied_partial",
     "C06_denied_call_refuted", "C06_denied_own_changes_nothing",
+    "C06_config_tree_order", "C06_config_tree_fatal", "C06_include_literal_partial", "C06_include_literal_refuted",
+    "C06_admission", "C06_connect_refused",
+    "C06_reload_judged_by_old_policy", "C06_reload_failed", "C06_reload_effect", "C06_reload_decides_by_new_config",
 ]
 
 MAXFDS = pe.MAXFDS
@@ -269,6 +272,79 @@ def check_dec(rep, known, cases, info, stats):
     return len(lines), len(nontrivial)
 
 
+# --------------------------------------------------------------------------- configuration trees at decision level
+CFG_UIDS = (0, 1, 2, 3, 4242)
+CFG_NAMES = ("com.ex.A", "com.ex.A.sub", "com.ex.AB", "com.ex.B", "com.ex")
+
+
+def gen_cfg_tree(rnd):
+    nconn = 3
+    elems = pe.gen_policy_elems(rnd, nconn, [0, 1, 2, 3], [0, 1, 2, 3, 4], [])
+    # more ownership and admission rules in default / mandatory contexts, where this leg can see them
+    for e in elems:
+        if e[0] in ("d", "m") and rnd.random() < 0.7:
+            for _ in range(rnd.randint(1, 3)):
+                e[1].insert(rnd.randint(0, len(e[1])), rnd.choice((
+                    [rnd.random() < 0.5, [["own", rnd.choice(CFG_NAMES + ("*",))]]],
+                    [rnd.random() < 0.5, [["own_prefix", rnd.choice(("com.ex", "com.ex.A", "com"))]]],
+                    pe.gen_conn_rule(rnd))))
+    return pe.wrap_tree(rnd, elems, fatal_rate=0.06)
+
+
+def check_cfg(rep, known, trees, info, stats):
+    """bus_config_load + bus_config_parser_steal_policy on real files (policy_h `cfg`) against load_config / denote"""
+    import shutil, tempfile
+    root = tempfile.mkdtemp(prefix="verif_c06cfg_")
+    try:
+        ilines, mlines = [], []
+        decl = ["N u %s %d" % (pe.hexs(n), u) for u, n in pe.USERS.items()] + ["N g %s %d" % (pe.hexs(n), g) for g, n in pe.GROUPS.items()]
+        for k, tree in enumerate(trees):
+            d = os.path.join(root, "t%d" % k)
+            os.mkdir(d)
+            w = pe.TreeWriter(d, os.path.join(d, "bus"))
+            w.write_top(tree)
+            q_impl = " ; ".join(["u %d" % u for u in CFG_UIDS] + ["o %s" % pe.hexs(n) for n in CFG_NAMES])
+            q_model = " ; ".join(["u %d %s" % (u, "~" if u not in pe.DB_GROUPS else ",".join(map(str, pe.DB_GROUPS[u]))) for u in CFG_UIDS] +
+                                 ["o %s" % pe.hexs(n) for n in CFG_NAMES])
+            ilines.append("cfg %s ; %s" % (os.path.join(d, "bus.conf"), q_impl))
+            mlines.append("cfg " + " ; ".join(decl + ["T"] + pe.tree_items(tree) + ["X"]) + " ; " + q_model)
+        impl, icr = vlib.run_lines(info["policy_h"], ilines, env={"DBUS_FATAL_WARNINGS": "0"})
+        model, mcr = vlib.run_lines(info["model_policy"], mlines)
+    finally:
+        shutil.rmtree(root, ignore_errors=True)
+    for line, err in icr:
+        if "AddressSanitizer" in err or "runtime error" in err or "ssertion" in err:
+            rep.violation("bus_config_load crashed / sanitizer report on a generated configuration tree: %s" % err[-700:], {"line": line, "stderr": err})
+    nontrivial = 0
+    for tree, i, m in zip(trees, impl, model):
+        if i == "!CRASH" or m == "!CRASH" or m.startswith("?"):
+            if m.startswith("?"):
+                rep.violation("model could not read a configuration tree: %s" % m[:200], {"tree": tree, "names": "model driver (cfg)"}, found_input=False)
+            continue
+        stats["cfg"] = stats.get("cfg", 0) + 1
+        mm, spec, d4 = m.split(" ## ")
+        if i.startswith("OK") and ("1" in i):
+            nontrivial += 1
+        replay = {"tree": tree, "config": pe.to_xml({"files": tree, "ops": []})[:3000], "impl": i, "model": m}
+        if i != mm:
+            if i != spec:
+                rep.violation("the policy built from a tree of configuration files differs from the documented reading (textual inclusion, context order, "
+                              "admission rules): bus_config_load gives [%s], the manual page [%s] (model [%s])" % (i, spec, mm), replay)
+            else:
+                rep.violation("configuration tree: implementation [%s], model [%s], specification [%s]" % (i, mm, spec),
+                              dict(replay, names="correspondence bus_config_load/bus_policy_merge vs PolicyConfig.load_config"), found_input=False)
+            continue
+        if mm != spec:
+            rep.violation("load_config and denote disagree although proved equal: [%s] vs [%s]" % (mm, spec), dict(replay, names="spec oracle vs model (cfg)"), found_input=False)
+        if d4 == "D4=1":
+            if "C06-D4" in known:
+                rep.known(known["C06-D4"], {"config": replay["config"][:500]})
+                stats["known"]["C06-D4-cfg"] = stats["known"].get("C06-D4-cfg", 0) + 1
+            else:
+                rep.violation("a configuration tree is read differently from the literal manual page (ignore_missing swallows an existing file)", replay)
+    return len(trees), nontrivial
+
+
 # --------------------------------------------------------------------------- end to end
 def _run_scn(arg):
     exe, scn = arg
@@ -281,7 +357,7 @@ def _run_scn(arg):
         return ("exc", traceback.format_exc()[-1500:], "")
 
 
-POLICY_TAGS = ("P", "E=org.freedesktop.DBus.Error.AccessDenied")
+POLICY_TAGS = ("P", "E=org.freedesktop.DBus.Error.AccessDenied", "REFUSED")
 
 
 def only_policy_difference(a, b):
@@ -311,6 +387,10 @@ def check_e2e(rep, known, scns, info, stats):
     nops, nontriv = 0, set()
     for scn, line, m, r in zip(scns, lines, model, impl):
         replay = {"scenario": scn, "config": pe.to_xml(scn)}
+        if r[0] == "crash" and "handle_reload_watch" in r[1] and "assertion failed" in r[1] and "C06-R1" in known and any(op[0] == "H" for op in scn["ops"]):
+            rep.known(known["C06-R1"], {"config": pe.to_xml(scn)[:400], "stderr": r[1][-300:]})
+            stats["known"]["C06-R1"] = stats["known"].get("C06-R1", 0) + 1
+            continue
         if r[0] == "crash":
             rep.violation("dbus-daemon crashed / sanitizer report on a generated policy scenario: %s" % r[1][-700:], dict(replay, stderr=r[1]))
             continue
@@ -322,7 +402,7 @@ def check_e2e(rep, known, scns, info, stats):
             continue
         got = r[1]
         parts = m.split(" ## ")
-        mm, f3m, doc = parts if len(parts) == 3 else (m, m, m)
+        mm, f3m, doc, d4 = parts if len(parts) == 4 else (m, m, m, "D4=0")
         if "FAULT" in mm:
             rep.violation("generated scenario is outside the model (%s)" % mm[-40:], dict(replay, names="generator"), found_input=False)
             continue
@@ -342,6 +422,9 @@ def check_e2e(rep, known, scns, info, stats):
         for j, (a, b) in enumerate(zip(g, w)):
             if any(t.split(":", 1)[1] in POLICY_TAGS for t in a.split(",") if ":" in t):
                 nontriv.add((line, j))
+            if "REFUSED" in a: stats["refused"] = stats.get("refused", 0) + 1
+            if j < len(scn["ops"]) and scn["ops"][j][0] == "M" and scn["ops"][j][2].get("member") == "ReloadConfig":
+                stats["reload_ok" if a.endswith(":R") or ":R," in a else "reload_other"] = stats.get("reload_ok" if a.endswith(":R") or ":R," in a else "reload_other", 0) + 1
         if g != w:
             j = next((j for j, (a, b) in enumerate(zip(g, w)) if a != b), min(len(g), len(w)))
             a = g[j] if j < len(g) else "(nothing)"
@@ -354,6 +437,14 @@ def check_e2e(rep, known, scns, info, stats):
                 rep.violation("end-to-end observation differs at operation %d %s: daemon [%s] model [%s]" % (j, json.dumps(op), a[:300], b[:300]),
                               dict(replay, op_index=j, observed=a, expected=b, names="correspondence dbus-daemon vs Policy.PolicyBus.step"), found_input=False)
             continue
+        if d4 == "D4=1":
+            # code = model, but under the literal reading of ignore_missing some tree of this scenario means something else
+            # (an existing file swallowed because of a file-not-found error from further down)
+            if "C06-D4" in known:
+                rep.known(known["C06-D4"], {"config": pe.to_xml(scn)[:700]})
+                stats["known"]["C06-D4"] = stats["known"].get("C06-D4", 0) + 1
+            else:
+                rep.violation("a configuration tree is read differently from the literal manual page (ignore_missing swallows an existing file)", dict(replay))
         if w != dd:
             # code = model, but the unpruned (documented) rule list would have decided differently: the optimiser finding
             j = next((j for j, (a, b) in enumerate(zip(w, dd)) if a != b), 0)
@@ -425,6 +516,13 @@ def run(ctx):
             uniq.append((rs, q))
     dec_cases = uniq
     ndec, ndec_nt = check_dec(rep, known, dec_cases, info, stats) if dec_cases else (0, 0)
+    trees = []
+    if not ctx.get("replay"):
+        trees = [c["tree"] for _, c in corpus if "tree" in c] + [gen_cfg_tree(rnd) for _ in range(1500 if tier == "quick" else 60000)]
+    elif "tree" in rp:
+        trees = [rp["tree"]]
+    ncfg, ncfg_nt = check_cfg(rep, known, trees, info, stats) if trees else (0, 0)
+    ndec, ndec_nt = ndec + ncfg, ndec_nt + ncfg_nt
     nops, ne2e_nt = check_e2e(rep, known, scns, info, stats) if scns else (0, 0)
     if ctx.get("replay") and scns:
         line = pe.to_line(scns[0])
@@ -453,7 +551,9 @@ def run(ctx):
                 "1-6 <policy> elements, invalid attribute combinations at a low rate) with 3-4 clients of different uid/group sets, match rules, name requests (queues) and "
                 "8-24 probe messages; one comparison per operation, non-trivial = the probe was delivered to somebody or AccessDenied was returned",
         "samples": samples,
-        "input_distribution": {"decision_cases": ndec, "e2e_scenarios": stats["e2e_scn"], "e2e_operations": nops, "config_errors_agreed": stats["cfgerr"], "infrastructure_retries": stats.get("retried", 0), "optimizer_condition_ok": stats.get("optimizer_condition_ok"),
+        "input_distribution": {"decision_cases": ndec - ncfg, "configuration_trees": ncfg, "e2e_scenarios": stats["e2e_scn"], "e2e_operations": nops, "config_errors_agreed": stats["cfgerr"], "infrastructure_retries": stats.get("retried", 0), "connections_refused": stats.get("refused", 0),
+                               "reloads_done": stats.get("reload_ok", 0), "reloads_refused_or_failed": stats.get("reload_other", 0),
+                               "scenarios_with_includes": sum(1 for s in scns if any(it[0] != "P" for it in s.get("files", []))), "optimizer_condition_ok": stats.get("optimizer_condition_ok"),
                                "corpus": ncorpus, "known_finding_hits": stats["known"]},
         "traces_validated_against_impl": ndec + nops, "disagreements_checked": len(rep.violations), "exhaustive": False,
         "explanation": "theorems: the model of bus/policy.c equals the manual-page semantics (last matching rule, context order, every attribute) for all rule lists, "
